@@ -20,6 +20,11 @@ package cfedistributor
 //@   ensures existingAccountsUntouched()
 //@   // C03: the remains written back by this block never exceed what the main account holds
 //@   ensures [books] forall d: str :: {$bal[MAIN()][d]} $bal[MAIN()][d] * P - sumLog($stLogRem, old($stLogN), d, $stLogN - old($stLogN)) >= 0
+//@   // C03, exact form: under a configuration whose last occurrence of the main account is as a source (what
+//@   // ValidateSubDistributors is proved to establish for every accepted parameter set), the leftovers written back by this
+//@   // block add up to exactly what the main account holds - per denomination, hence a whole number of coins
+//@   ensures [books-exact] loMainOf($distParams.SubDistributors, len($distParams.SubDistributors)) == "SOURCE" ==>
+//@       (forall d: str :: {$bal[MAIN()][d]} $bal[MAIN()][d] * P == sumLog($stLogRem, old($stLogN), d, $stLogN - old($stLogN)))
 //@   // C01: the distributor never raises the supply
 //@   ensures forall d: str :: {$supply[d]} $supply[d] <= old($supply[d])
 //@   prop C03 C14 C18 C01 C10
@@ -28,6 +33,10 @@ package cfedistributor
 //@   invariant off(states) == 0 && statesHaveAccounts(states) && remainsNonNeg(states) && payoutOK(states)
 //@   invariant forall d: str :: {$bal[MAIN()][d]} unbooked(states, d) >= 0 && $bal[MAIN()][d] >= 0
 //@   invariant existingAccountsUntouched() && $supply == old($supply) && $stLogN == old($stLogN) && $stLogRem == old($stLogRem)
+//@   invariant subDistributors == $distParams.SubDistributors
+//@   invariant loMainOf(subDistributors, \i) == "SOURCE" ==> (forall d: str :: {$bal[MAIN()][d]} unbooked(states, d) == 0)
+//@   uses forall x: int :: {keptOf(x, subDistributors[\i].Destinations, len(subDistributors[\i].Destinations.Shares))}
+//@       keptOnMainZero(x, elemRow(subDistributors[\i].Destinations.Shares), heapOf("types.DestinationShare", "Share"), heapOf("types.DestinationShare", "Destination.Type"), off(subDistributors[\i].Destinations.Shares), len(subDistributors[\i].Destinations.Shares))
 //@ // C18: the events emitted for a sub-distributor are, in order, the Distribution records StartDistributionProcess returned
 //@ // (whose amounts add up, with the burn record, to the inflow: StartDistributionProcess [events])
 //@ loop BeginBlocker#2
